@@ -29,13 +29,6 @@ def payloader (mtu : Nat) (payload : Bytes) : Option (List Bytes) :=
       | [] => []
       | c :: cs => ((0x10 : UInt8) :: c) :: cs.map fun c => (0 : UInt8) :: c)
 
-/-- the `for i, payload := range payloads` loop of `Encode` -/
-def emit (c : EncCfg) : UInt16 → List Bytes → List Pkt
-  | _, [] => []
-  | sq, [pl] => [{ pt := c.pt, seq := sq, ssrc := c.ssrc, marker := true, payload := pl }]
-  | sq, pl :: rest =>
-    { pt := c.pt, seq := sq, ssrc := c.ssrc, marker := false, payload := pl } :: emit c (sq + 1) rest
-
 /-- `Encoder.Encode`; `none` = panic.  `uint16(e.PayloadMaxSize)` truncates. -/
 def encode (e : Enc) (frame : Bytes) : Option (Enc × List Pkt) :=
   match payloader (e.cfg.max % 65536) frame with
